@@ -55,7 +55,7 @@ def gen_case(rng, chk, nops, unequal):
             else:
                 n = rng.randrange(0, cap + 2)
             n = min(n, 70000)
-            if rng.random() < 0.06:
+            if not unequal and rng.random() < 0.06:      # (not on the corrupted positions of finding F6: the real copy would run away)
                 ops.append("wz %d %d" % (h, rng.choice(HUGE)))      # can never fit: 0, nothing appended
                 chk.bump("write-huge-length")
             else:
@@ -67,7 +67,7 @@ def gen_case(rng, chk, nops, unequal):
                     chk.bump("write-rejected")
         elif r < 0.73:
             c = rng.random()
-            n = used if c < 0.3 else used + 1 if c < 0.4 else 0 if c < 0.45 else 1 if c < 0.6 else rng.choice(HUGE) if c < 0.68 else rng.randrange(0, cap + 3)
+            n = used if c < 0.3 else used + 1 if c < 0.4 else 0 if c < 0.45 else 1 if c < 0.6 else rng.choice(HUGE) if c < 0.68 and not unequal else rng.randrange(0, cap + 3)
             ops.append("r %d %d" % (h, n))
             if n:
                 used -= min(n, used)
